@@ -3,6 +3,7 @@
 package cl
 
 import (
+	"errors"
 	"io"
 	"unicode/utf8"
 
@@ -121,16 +122,38 @@ func (f *Read) wrapRead(s *slip.Scope, r io.Reader, eofp bool, eofv slip.Object,
 // byteReader hands out the wrapped stream one byte per read.
 type byteReader struct {
 	r    io.Reader
-	cnt  int  // bytes handed out
-	last byte // the last byte handed out
+	cnt  int    // bytes handed out
+	last byte   // the last byte handed out
+	pend []byte // the rest of a multi byte character taken from the stream
 }
 
 func (br *byteReader) Read(p []byte) (n int, err error) {
 	if len(p) == 0 {
 		return 0, nil
 	}
-	if n, err = br.r.Read(p[:1]); 0 < n {
-		br.cnt += n
+	if 0 < len(br.pend) {
+		p[0] = br.pend[0]
+		br.pend = br.pend[1:]
+		n = 1
+	} else {
+		// A character given back to the stream by peek-char or unread-char
+		// is handed over whole and a one byte buffer is too short for a
+		// multi byte character. Ask again with a buffer of just its size,
+		// nothing behind the character is read then.
+		var buf [utf8.UTFMax]byte
+		for size := 1; size <= len(buf); size++ {
+			if n, err = br.r.Read(buf[:size]); 0 < n || err == nil || errors.Is(err, io.EOF) {
+				break
+			}
+		}
+		if 0 < n {
+			p[0] = buf[0]
+			br.pend = append(br.pend, buf[1:n]...)
+			n = 1
+		}
+	}
+	if 0 < n {
+		br.cnt++
 		br.last = p[0]
 	}
 	return
